@@ -358,6 +358,17 @@ def work_unknown(inst) -> dict:
                 specs.append(RuleSpec(verb, direction, exc, kind, (unk,), "named", (known,)))
                 specs.append(RuleSpec(verb, direction, exc, "named", (known,), kind, (unk,)))
                 specs.append(RuleSpec(verb, direction, exc, "named", (known, unk), "named", (present[-1],)))
+        # an absent name listed next to present ones: the absent CHILD of a listed present parent (either order), an
+        # absent sibling, on the object side and on the subject side
+        other = present[-1]
+        ghost_child, ghost_sib = known + ".ghost", known + "x"
+        if limit is None:
+            for batch in ((known, ghost_child), (ghost_child, known), (known, ghost_sib), (other, ghost_child)):
+                if other in batch:
+                    specs.append(RuleSpec(verb, direction, exc, "named", (known,), "named", batch))
+                else:
+                    specs.append(RuleSpec(verb, direction, exc, "named", (other,), "named", batch))
+                    specs.append(RuleSpec(verb, direction, exc, "named", batch, "named", (other,)))
         specs.append(RuleSpec(verb, direction, exc, "regex", ("nomatch_zz",), "named", (known,)))
         specs.append(RuleSpec(verb, direction, exc, "named", (known,), "regex", (r".*\.nomatch$",)))
     for d in ("import", "imported"):
